@@ -1,4 +1,6 @@
 """C01 - rendered terminal equals the application's screen after every frame."""
+import vselftest
+from checks import selfmut
 import json
 
 
@@ -35,6 +37,12 @@ def main(c):
             c.cov["as_found_render_models_refuted"] = refuted
     td = c.drive(drv, "c01", replay=c.replay)
     rejects, _ = c.validate_traces(specs, "RefTerm_Trace.tla", "RefTerm_Trace.cfg", td)
+    if not c.replay:
+        c.cov["binding_selftest"] = vselftest.run(c, specs, "RefTerm_Trace.tla", "RefTerm_Trace.cfg", td, {r["scn"] for r in rejects}, [
+            ("frame: glyph of cell (0,0)", selfmut.frame_glyph()),
+            ("frame: cursor row", selfmut.frame_cursor),
+            ("stream: print dropped", selfmut.print_dropped),
+])
     idx = c.load_index(td)
     c.count_distinct(idx)
     for s in list(idx.values())[:3]:
